@@ -45,7 +45,8 @@ def rule_e1(ctx):
         # the responsibility guard is the first statement with control flow (docstrings, constant bindings and logging calls before it are irrelevant)
         lead = 0
         while lead < len(target.body) and ((isinstance(target.body[lead], ast.Expr) and isinstance(target.body[lead].value, (ast.Constant, ast.Call)) and not isinstance(getattr(target.body[lead].value, "func", None), ast.Lambda))
-                                           or (isinstance(target.body[lead], ast.Assign) and isinstance(target.body[lead].value, ast.Constant))):
+                                           or (isinstance(target.body[lead], ast.Assign) and isinstance(target.body[lead].value, ast.Constant))
+                                           or isinstance(target.body[lead], (ast.Assert, ast.Pass))):
             lead += 1
         if lead:
             target = ast.FunctionDef(name=target.name, args=target.args, body=target.body[lead:], decorator_list=[], lineno=target.lineno)
